@@ -147,6 +147,9 @@ class ProgramTransformer(_ast.Transformer):
             if atom.term.name == "del" :
                 if not self.__negation and not self.__constraint:
                         raise RuntimeError("dynamic formulas not supported in this context: {}".format(_tf.str_location(atom.location)))
+                for element in atom.elements:
+                    if len(element.terms) != 1:
+                        raise RuntimeError("invalid dynamic formula: {}".format(_tf.str_location(atom.location)))
                 atom.term.arguments = [_ast.SymbolicTerm(atom.term.location, _clingo.Function("__t"))]
             elif atom.term.name == "tel" :
                 if self.__head:
